@@ -157,8 +157,12 @@ void task_group_context_impl::bind_to_impl(d1::task_group_context& ctx, thread_d
         register_with(ctx, td); // Issues full fence
         // As we do not have grand-ancestors, concurrent state propagation (if any)
         // may originate only from the parent context, and thus it is safe to directly
-        // copy the state from it.
-        ctx.my_cancellation_requested.store(ctx.my_parent->my_cancellation_requested.load(std::memory_order_relaxed), std::memory_order_relaxed);
+        // copy the state from it. The context is already registered, so the propagation
+        // may have marked it meanwhile: never overwrite that with a stale value.
+        std::uint32_t parent_state = ctx.my_parent->my_cancellation_requested.load(std::memory_order_relaxed);
+        if (parent_state) {
+            ctx.my_cancellation_requested.store(parent_state, std::memory_order_relaxed);
+        }
     }
 }
 
